@@ -281,8 +281,10 @@ def run(corrupt=None):
     thorough = ck.tier == "thorough"
     n = 4 if thorough else 3
     workdir = env.scratch("c12_files")
-    settings = [([1] * n, 1, False), ([1] * n, 2, False), ([2, 1, 3, 1][:n], 2, True), ([3, 3, 1, 2][:n], 1, True)]
-    for si, (sizes, S, clustered) in enumerate(settings):
+    settings = [(n, [1] * n, 1, False), (n, [1] * n, 2, False), (n, [2, 1, 3, 1][:n], 2, True), (n, [3, 3, 1, 2][:n], 1, True)]
+    if not thorough:
+        settings.append((4, [1, 1, 1, 1], 2, False))     # clones with three children need four data points
+    for si, (n, sizes, S, clustered) in enumerate(settings):
         recs = tlc_tables(ck, "c12_%d" % si, n, sizes, S)
         tasks = list(enumerate(recs))
 
@@ -290,7 +292,7 @@ def run(corrupt=None):
             i, rec = arg
             if corrupt == "rows" and i == len(recs) - 1 and rec["rows"]:
                 rec = dict(rec, rows=rec["rows"][1:])
-            return check_state(rec, n, sizes, S, clustered, workdir, i, files=(thorough or i % 3 == 0 or not absstate.canon(rec["st"])[0]))
+            return check_state(rec, n, sizes, S, clustered, workdir, i, files=(thorough or i % (3 if n <= 3 else 7) == 0 or not absstate.canon(rec["st"])[0]))
 
         task(tasks[-1])
         for (i, rec), probs in zip(tasks, kernels.parallel_map(task, tasks, chunksize=4)):
@@ -306,7 +308,7 @@ def run(corrupt=None):
         ck.sample({"setting": {"sizes": sizes, "samples": S, "clustered": clustered}, "state": recs[-1]["st"], "rows": recs[-1]["rows"][:4]})
     empty_clone_trees(ck)
     shutil.rmtree(workdir, ignore_errors=True)
-    ck.rule = ("every forest on %d data points (any outlier subset incl. all outliers) x 4 settings (unclustered 1-2 samples; clustered sizes 1-3, integer ids) "
+    ck.rule = ("every forest on %d data points (quick tier: plus all forests on 4 points, unclustered; any outlier subset incl. all outliers) x 4 settings (unclustered 1-2 samples; clustered sizes 1-3, integer ids) "
                "through get_clone_table, and through the map / consensus / topology-report commands on real trace files for a third of them "
                "(all in the thorough tier); non-trivial = forests with > 1 clone or with outliers" % n)
     ck.exhaustive = True
